@@ -97,6 +97,12 @@ expand again. -/
 def fibreModes (Mc : List (List K)) (ph : List K) (Mh : List (List K)) (w : List K) : Term K :=
   .comp (.matrix Mc) (.comp (.mulField ph) (.comp (.matrix Mh) (.mulField w)))
 
+/-- `FraunhoferPropagator`: `fourier_transform.forward(E) * norm_factor` (backward: `… / norm_factor`): the
+element's own Fourier-transform object as a matrix, times the scalar the propagator computes from focal
+length and wavelength.  (`FresnelPropagator`, `AngularSpectrumPropagator` and every `FourierFilter`-based
+element are a `sandwich`: cut-out ∘ inverse FFT, transfer function, FFT ∘ zero-padding.) -/
+def scaledTransform (c : K) (F : List (List K)) : Term K := .scale c (.matrix F)
+
 /-! ### The family table: what the driver op `C06 denote-family` executes
 
 The harness names a family and supplies the element's exposed parameters as arguments; the *term* is
@@ -105,12 +111,13 @@ built here, by `familyTerm`, from the schemas above — not in Python. -/
 inductive Family where
   | pointwise | dense | fibreForward | fibreBackward | projection | lyotCore | lyotForward | lyotBackward
   | sandwich | multiscaleForward | multiscaleBackward | system | fibreNuller | fibreNullerBackward
-  | fibreModes
+  | fibreModes | scaledTransform
   deriving DecidableEq, Repr
 
 def Family.all : List Family :=
   [.pointwise, .dense, .fibreForward, .fibreBackward, .projection, .lyotCore, .lyotForward, .lyotBackward,
-   .sandwich, .multiscaleForward, .multiscaleBackward, .system, .fibreNuller, .fibreNullerBackward, .fibreModes]
+   .sandwich, .multiscaleForward, .multiscaleBackward, .system, .fibreNuller, .fibreNullerBackward, .fibreModes,
+   .scaledTransform]
 
 def Family.name : Family → String
   | .pointwise => "pointwise" | .dense => "dense" | .fibreForward => "fibreForward"
@@ -118,7 +125,7 @@ def Family.name : Family → String
   | .lyotForward => "lyotForward" | .lyotBackward => "lyotBackward" | .sandwich => "sandwich"
   | .multiscaleForward => "multiscaleForward" | .multiscaleBackward => "multiscaleBackward"
   | .system => "system" | .fibreNuller => "fibreNuller" | .fibreNullerBackward => "fibreNullerBackward"
-  | .fibreModes => "fibreModes"
+  | .fibreModes => "fibreModes" | .scaledTransform => "scaledTransform"
 
 def Family.ofString? (s : String) : Option Family := Family.all.find? (·.name == s)
 
@@ -187,6 +194,7 @@ def familyTerm : Family → List (Arg K) → Option (Term K)
     | some apod => some (fibreNullerBackward apod Pb B)
     | none => none
   | .fibreModes, [.mat Mc, .vec ph, .mat Mh, .vec w] => some (fibreModes Mc ph Mh w)
+  | .scaledTransform, [.vec [c], .mat F] => some (scaledTransform c F)
   | _, _ => none
 
 end Terms
@@ -542,6 +550,31 @@ def iFourier : IProg :=
              .scratchWrite 0 (.op2 opFT (.loc 2) (.loc 1)), .scratchRead 3 0],
     ret := .loc 3 }
 
+/-- `MatrixFourierTransform` (2-D, `allocate_intermediate`): the matrices `M1`/`M2` (cell 0, key
+`matrices_dtype`) **and** the preallocated `intermediate_array` (cell 1, key `intermediate_dtype`) are kept
+per working precision.  The precision is that of the field passed in (`_compute_matrices(field.dtype)`);
+it is modelled as `param 0`, which the harness sets before a call with a field of that precision.
+The first `gemm` is handed the intermediate array as its output (`c=…, overwrite_c=True`): what lands in
+the work buffer depends on the array it was given (scipy's BLAS wrapper works on a converted temporary
+when `c` has another dtype than the routine's); the second `gemm` reads the buffer. -/
+def opAlloc := 19
+def opGemm := 20
+def iMftMatSpec : IExpr := .op1 opMatrices (.atom (.param 0))
+def iMftBufSpec : IExpr := .op1 opAlloc (.atom (.param 0))
+def iMftBody : List IInstr :=
+  [.memoRead 1 0 iMftMatSpec, .memoFill 0 iMftMatSpec,
+   .memoRead 2 1 iMftBufSpec, .memoFill 1 iMftBufSpec,
+   .scratchWrite 0 (.op2 opGemm (.op2 opMul .field (.loc 1)) (.loc 2)), .scratchRead 3 0]
+def iMft : IProg :=
+  { keyAtoms := fun _ => [.param 0], spec := fun c => if c = 0 then iMftMatSpec else iMftBufSpec,
+    body := iMftBody, ret := .op2 opFT (.loc 3) (.loc 1) }
+
+/-- **Seeded defect class (C06-8)** — the intermediate array allocated *once* (`if … is None`) instead of
+per precision: cell 1 is keyed by nothing although its content depends on the precision. -/
+def iMftAllocOnceOld : IProg :=
+  { keyAtoms := fun c => if c = 0 then [.param 0] else [], spec := fun c => if c = 0 then iMftMatSpec else iMftBufSpec,
+    body := iMftBody, ret := .op2 opFT (.loc 3) (.loc 1) }
+
 /-- propagators: an agnostic instance (cell 0) that owns a Fourier object (cell 1, scratch 0). -/
 def iPropagator : IProg :=
   { keyAtoms := fun c => if c = 0 then [.param 0, .grid, .wavelength] else [.param 1],
@@ -592,12 +625,14 @@ def internalPrograms : List (String × IProg × List String × List String) :=
       ["M", "M1", "M2", "weights_input", "weights_output", "matrices_dtype", "intermediate_dtype",
        "_transfer_function", "internal_array", "intermediate_array"],
       ["internal_array", "intermediate_array"]),
+   ("mft", iMft, ["M1", "M2", "matrices_dtype", "intermediate_dtype", "intermediate_array"], ["intermediate_array"]),
    ("propagator", iPropagator, ["_instance_data_cache", "_num_in_cache"], []),
    ("modulatedPyramid", iModulated, ["tip_tilt_mirror"], [])]
 
 def internalByName (n : String) : Option (IProg × List String × List String) :=
   if n == "modalAOOld" then some (iModalAOOld, ["_achromatic_screen"], [])
   else if n == "unkeyed" then some (iUnkeyed, ["_instance_data_cache"], [])
+  else if n == "mftAllocOnceOld" then some (iMftAllocOnceOld, ["M1", "M2", "intermediate_array"], ["intermediate_array"])
   else (internalPrograms.find? (·.1 == n)).map (·.2)
 
 end HcipyVerif.Elements
